@@ -254,9 +254,9 @@ fn check_state(rep: &mut Rep, ctx: &mut Ctx, kind: Kind, ops: &[Op], real: &Netw
         let n = got.len();
         got.sort();
         let (class, obl): (&str, &[&str]) = match kind {
-            Kind::Ordered => ("iter-all-ordered-repeats", &["NET.iter_next.ensures.yield-ordered", "NET.iter_next.ensures.rest-ordered", "NET.iter_all.ensures.agrees-with-len"]),
-            Kind::NonDup => ("iter-all-nondup-extra-copy", &["NET.iter_next.ensures.rest-nondup", "NET.iter_next.ensures.yield-nondup", "NET.iter_all.ensures.agrees-with-len"]),
-            Kind::Dup => ("iter-all-dup-mismatch", &["NET.iter_next.ensures.yield-dup", "NET.iter_next.ensures.rest-dup", "NET.iter_all.ensures.agrees-with-len"]),
+            Kind::Ordered => ("iter-all-ordered-repeats", &["NET.iter_next.ensures.yield-ordered", "NET.iter_next_rest_ordered.ensures.rest-ordered", "NET.iter_all.ensures.agrees-with-len"]),
+            Kind::NonDup => ("iter-all-nondup-extra-copy", &["NET.iter_next_rest.ensures.rest-nondup", "NET.iter_next.ensures.yield-nondup", "NET.iter_all.ensures.agrees-with-len"]),
+            Kind::Dup => ("iter-all-dup-mismatch", &["NET.iter_next.ensures.yield-dup", "NET.iter_next_rest.ensures.rest-dup", "NET.iter_all.ensures.agrees-with-len"]),
         };
         rep.check(ctx, 
             &case,
@@ -365,7 +365,7 @@ pub fn run(ctx: &mut Ctx) {
         let e = env((0, 1, 'a'));
         let n = Network::new_unordered_nonduplicating([e, e]);
         let c = n.iter_all().take(10).count();
-        rep.check(ctx, case, "iter-all-nondup-extra-copy", &["NET.iter_next.ensures.rest-nondup", "NET.iter_all.ensures.agrees-with-len"], c == n.len(), format!("len()={} iter_all().count()={}", n.len(), c), "equal".to_string());
+        rep.check(ctx, case, "iter-all-nondup-extra-copy", &["NET.iter_next_rest.ensures.rest-nondup", "NET.iter_all.ensures.agrees-with-len"], c == n.len(), format!("len()={} iter_all().count()={}", n.len(), c), "equal".to_string());
     }
     rep.flush(ctx);
 }
